@@ -22,14 +22,14 @@ func (c *CRLRevocationChecker) VerifUpdateCRLs(force bool) {
 func (c *CRLRevocationChecker) VerifSetLastUpdateFinish(t time.Time) {
 	crlUpdateMutex.Lock()
 	defer crlUpdateMutex.Unlock()
-	lastCrlUpdateFinishTime = t
+	c.lastCrlUpdateFinishTime = t
 }
 
 // VerifLastUpdateFinish reads the refresh-finish timestamp consulted by this checker.
 func (c *CRLRevocationChecker) VerifLastUpdateFinish() time.Time {
 	crlUpdateMutex.Lock()
 	defer crlUpdateMutex.Unlock()
-	return lastCrlUpdateFinishTime
+	return c.lastCrlUpdateFinishTime
 }
 
 // VerifWorkDirRegistered reports whether dir is currently registered as in use.
@@ -44,7 +44,9 @@ func VerifWorkDirRegistered(dir string) bool {
 func VerifShiftLastUpdateFinish(d time.Duration, checkers ...*CRLRevocationChecker) {
 	crlUpdateMutex.Lock()
 	defer crlUpdateMutex.Unlock()
-	if !lastCrlUpdateFinishTime.IsZero() {
-		lastCrlUpdateFinishTime = lastCrlUpdateFinishTime.Add(-d)
+	for _, c := range checkers {
+		if !c.lastCrlUpdateFinishTime.IsZero() {
+			c.lastCrlUpdateFinishTime = c.lastCrlUpdateFinishTime.Add(-d)
+		}
 	}
 }
